@@ -142,7 +142,27 @@ def k_treeinfo_variants(order):
     return t
 
 
-KINDS = {"top_variants": k_top_variants, "child_variants": k_child_variants, "arches": k_arches, "path_entries": k_path_entries,
+def k_extra_files(order):
+    """Extra-file entries are a caller-ordered list (content): orders are compared with themselves only; between two dumps
+    the partial dump_for_tree is taken, which must not change what later dumps write."""
+    from productmd.extra_files import ExtraFiles
+    m = ExtraFiles()
+    samples.set_compose(m.compose)
+    files = ["Server/x86_64/os/GPL", "Server/x86_64/os/EULA", "Server/x86_64/os/Server/x86_64/os/README", "Server/x86_64/osx/X", "a"]
+    for i in order:
+        m.add("Server", "x86_64", files[i - 1], 100 + i, {"sha256": "%x" % i * 64})
+    return m
+
+
+def _between_extra_files(obj):
+    import io
+    obj.dump_for_tree(io.StringIO(), "Server", "x86_64", "Server/x86_64/os")
+    obj.dump_for_tree(io.StringIO(), "Server", "x86_64", "Server/x86_64/os/")
+
+
+ORDERED = {"extra_files"}                 # kinds whose part order is content
+BETWEEN = {"extra_files": _between_extra_files}
+KINDS = {"extra_files": k_extra_files, "top_variants": k_top_variants, "child_variants": k_child_variants, "arches": k_arches, "path_entries": k_path_entries,
          "images": k_images, "rpms": k_rpms, "modules": k_modules, "platforms": k_platforms, "checksums": k_checksums,
          "image_table": k_image_table, "treeinfo_variants": k_treeinfo_variants}
 
@@ -157,7 +177,11 @@ def worker(orders, dumps):
         for order in orders:
             try:
                 obj = fn(order)
-                texts = [obj.dumps() for _ in range(dumps)]
+                texts = []
+                for d_i in range(max(dumps, 2)):
+                    texts.append(obj.dumps())
+                    if kind in BETWEEN:
+                        BETWEEN[kind](obj)
             except Exception as exc:
                 fails.append("%s order %s: %s: %s" % (kind, order, type(exc).__name__, exc))
                 continue
@@ -219,16 +243,20 @@ def run(ctx):
                     ctx.fail({"kind": kind, "seed": s}, "PYTHONHASHSEED=%s: %s" % (s, f), "format")
             for order, digs in results[s]["digests"].get(kind, {}).items():
                 for d_i, d in enumerate(digs):
-                    seen.setdefault(d, []).append((s, order, d_i))
+                    seen.setdefault((d, order if kind in ORDERED else ""), []).append((s, order, d_i))
                     ctx.evaluations += 1
                     ctx.distinct.add("%s-%s-%s-%d" % (kind, s, order, d_i))
-        if len(seen) > 1:
-            groups = sorted(seen.values(), key=len, reverse=True)
+        classes = {}
+        for (d, cls), members in seen.items():
+            classes.setdefault(cls, []).append(members)
+        bad = [g for g in classes.values() if len(g) > 1]
+        if bad:
+            groups = sorted(bad[0], key=len, reverse=True)
             a, b = groups[0][0], groups[1][0]
             ctx.fail({"kind": kind, "a": {"seed": a[0], "order": a[1], "dump": a[2]}, "b": {"seed": b[0], "order": b[1], "dump": b[2]},
                       "n": n, "dumps": dumps},
                      "%s: same content, different bytes: (hash seed %s, insertion order %s, dump #%d) vs (hash seed %s, order %s, dump #%d); "
-                     "%d distinct outputs" % (kind, a[0], a[1], a[2] + 1, b[0], b[1], b[2] + 1, len(seen)), "order")
+                     "%d distinct outputs" % (kind, a[0], a[1], a[2] + 1, b[0], b[1], b[2] + 1, len(groups)), "order")
     ctx.traces += ctx.evaluations
     ctx.exhaustive = True
     ctx.sample({"kind": "history", "part_kind": "images", "order": list(orders[1]), "dumps": dumps, "hash_seed": seeds[-1]})
